@@ -66,6 +66,9 @@ type Task struct {
 	Split    int      `json:"split"`
 	Budgets  []Budget `json:"budgets"`
 	Filter   string   `json:"filter"`
+	// Known lists the keys of open known findings: a run that only shows
+	// those is still expanded, so that other violations below it are found.
+	Known []string `json:"known,omitempty"`
 	// DeadlineUnix stops expansion (not a violation) when passed.
 	DeadlineUnix int64 `json:"deadline"`
 }
@@ -253,9 +256,18 @@ func (w *Worker) explore(t Task, prefix []int, ds, df, split int, filter Filter,
 			}
 		}
 	}
-	if len(o.Findings) > 0 {
-		// Do not look for further violations below a violating run.
-		return
+	for _, f := range o.Findings {
+		known := false
+		for _, k := range t.Known {
+			if k == f.Key {
+				known = true
+			}
+		}
+		if !known {
+			// Do not look for further violations below a
+			// violating run.
+			return
+		}
 	}
 	for i := len(prefix); i < len(x.Points); i++ {
 		p := x.Points[i]
@@ -287,7 +299,7 @@ func (w *Worker) explore(t Task, prefix []int, ds, df, split int, filter Filter,
 				r.Children = append(r.Children, Task{
 					Scenario: t.Scenario, Prefix: child, DS: nds, DF: ndf,
 					Split: split - 1, Budgets: t.Budgets, Filter: t.Filter,
-					DeadlineUnix: t.DeadlineUnix,
+					DeadlineUnix: t.DeadlineUnix, Known: t.Known,
 				})
 				continue
 			}
